@@ -379,6 +379,9 @@ pub fn world_engine(prop: &str, thorough: bool) -> Option<WorldEngine> {
                 (Profile::Indep, 8),
                 (Profile::PullCount, 8),
                 (Profile::FromIterDirect, 4),
+                (Profile::Rogue, 20),
+                (Profile::LateAny, 5),
+                (Profile::LateShare, 3),
             ],
             max_steps,
             oracle: |_, _| vec![],
